@@ -4,6 +4,7 @@ import (
 	"encoding/binary"
 	"fmt"
 	"github.com/google/pprof/internal/plugin"
+	"github.com/google/pprof/profile"
 	"os"
 	"path/filepath"
 	"sort"
@@ -495,4 +496,180 @@ func checkNM(c *nmCase, o *vk.Obs) []string {
 func TestPropNM(t *testing.T) {
 	vk.Main(t, vk.Spec[nmCase]{ID: "C13", Facet: "nm", Quick: 250, Thorough: 2500, Gen: genNM, Check: checkNM,
 		Rule: "sorted symbol tables (gaps, zero sizes, aliases at one address, text/data/weak types, unparsable lines) served by a fake nm selected with SetTools, looked up through Binutils.Open(...).SourceLine in fast mode on a PIE loaded at a drawn bias; oracle: the symbol with the greatest start not above the translated address (any alias), data symbols only within their size, nothing below the first symbol; addresses beyond the last symbol are not asserted; non-trivial = >=2 symbols"})
+}
+
+// ---- facet legacymap: the same translation when the mappings come from the memory map of a legacy profile ----
+
+type legacyCase struct {
+	E     *elfCase
+	Stray bool // one extra frame just below the executable mapping (an unwinder artefact)
+}
+
+func genLegacy(t *rapid.T) *legacyCase {
+	e := genELF(t)
+	e.Whole, e.SplitLo = false, 0
+	return &legacyCase{E: e, Stray: rapid.IntRange(0, 2).Draw(t, "stray") == 0}
+}
+
+func checkLegacy(c *legacyCase, o *vk.Obs) []string {
+	var e vk.Errs
+	ec := c.E
+	path := filepath.Join(scratchDir(), "legacy.elf")
+	if err := os.WriteFile(path, ec.bytes(), 0o644); err != nil {
+		return nil
+	}
+	// loader model: one mapping per segment, whole pages, as /proc/self/maps lists them
+	type mp struct {
+		start, limit, off uint64
+		perm              string
+		seg               int
+	}
+	var maps []mp
+	for i, s := range ec.Segs {
+		if s.Filesz == 0 {
+			continue
+		}
+		perm := "r--p"
+		if s.Flags&1 != 0 {
+			perm = "r-xp"
+		} else if s.Flags&2 != 0 {
+			perm = "rw-p"
+		}
+		m := mp{ec.Bias + pagedown(s.Vaddr), ec.Bias + pageup(s.Vaddr+s.Filesz), pagedown(s.Off), perm, i}
+		if len(maps) > 0 && maps[len(maps)-1].limit > m.start {
+			// two segments on one page of memory: not a layout a loader produces
+			return nil
+		}
+		maps = append(maps, m)
+	}
+	// The legacy parser keeps executable mappings only and merges two of them when they are adjacent in
+	// memory and their offsets are contiguous - where offset 0 counts as "offset not available" (brief maps
+	// carry none). Two adjacent executable mappings one of which is at file offset 0 are therefore merged on
+	// purpose, whatever the file layout: not generated.
+	var prev *mp
+	for i := range maps {
+		if maps[i].perm != "r-xp" {
+			continue
+		}
+		if prev != nil && prev.limit == maps[i].start && (prev.off == 0 || maps[i].off == 0) {
+			o.Label("adjacent-mappings-offset-unknown")
+			return nil
+		}
+		prev = &maps[i]
+	}
+	tg := ec.Segs[ec.Target]
+	lo, hi := ec.Bias+tg.Vaddr, ec.Bias+tg.Vaddr+tg.Filesz
+	if hi-lo < 2 {
+		return nil
+	}
+	// A frame just below a mapping with a non-zero offset makes the legacy parser extend the mapping down to
+	// file offset 0 (its documented work-around for maps that lost the first part of a split mapping). That
+	// describes the process correctly only when the whole file is mapped with one address-minus-offset
+	// delta; for other layouts the statement (mappings a loader may produce) does not cover the result.
+	stray, uniform := c.Stray, true
+	for _, s := range ec.Segs {
+		if s.Vaddr-s.Off != tg.Vaddr-tg.Off {
+			stray, uniform = false, false
+		}
+	}
+	// Likewise the parser rewrites a main mapping whose start minus offset is 0x400000 to start there at
+	// offset 0 (the conventional link address): right only when the file is mapped with one delta.
+	for _, m := range maps {
+		if !uniform && m.perm == "r-xp" && m.start-m.off == 0x400000 {
+			o.Label("conventional-start-rewrite")
+			return nil
+		}
+	}
+	// sampled addresses of the target segment (the profile records return addresses: one past)
+	var want []uint64
+	for _, sel := range ec.AddrSel {
+		want = append(want, lo+sel%(hi-lo))
+	}
+	want = append(want, lo, hi-1)
+	var b strings.Builder
+	b.WriteString("heap profile: 1: 2 [1: 2] @ heapprofile\n")
+	for _, a := range want {
+		fmt.Fprintf(&b, "1: 2 [1: 2] @ 0x%x", a+1)
+		if stray {
+			// a frame one byte below the executable mapping
+			fmt.Fprintf(&b, " 0x%x", ec.Bias+pagedown(tg.Vaddr))
+		}
+		b.WriteString("\n")
+	}
+	b.WriteString("\nMAPPED_LIBRARIES:\n")
+	for _, m := range maps {
+		fmt.Fprintf(&b, "%08x-%08x %s %08x 08:01 1234 %s\n", m.start, m.limit, m.perm, m.off, path)
+	}
+	p, err := profile.ParseData([]byte(b.String()))
+	if err != nil {
+		e.Addf("legacy profile with the memory map of the binary rejected: %v\n%s", err, b.String())
+		return e
+	}
+	o.LabelIf(stray, "stray-frame-below-mapping")
+	o.LabelIf(ec.Bias != 0, "biased")
+	o.NonTrivial = len(maps) >= 2 && ec.Bias != 0
+	bu := &binutils.Binutils{}
+	bu.SetTools("nm:/nonexistent,addr2line:/nonexistent,llvm-symbolizer:/nonexistent,objdump:/nonexistent")
+	inTarget := map[uint64]bool{}
+	for _, a := range want {
+		inTarget[a] = true
+	}
+	for _, l := range p.Location {
+		if !inTarget[l.Address] || l.Mapping == nil || l.Mapping.File != path {
+			continue
+		}
+		m := l.Mapping
+		of, err := bu.Open(m.File, m.Start, m.Limit, m.Offset, "")
+		if err != nil {
+			o.Label("open-error")
+			continue
+		}
+		got, err := of.ObjAddr(l.Address)
+		of.Close()
+		if err != nil {
+			o.Label("error-instead-of-address")
+			continue
+		}
+		if got != l.Address-ec.Bias {
+			if ec.Dyn && kernelHeuristicHit(ec, l.Address, m.Start, m.Offset) && vk.Known("C13-kernel-heuristic-collision") {
+				o.Exclude("C13-kernel-heuristic-collision")
+				continue
+			}
+			if mergedBssHit(ec, l.Address, m.Start, m.Limit, m.Offset) && vk.Known("C13-merged-mapping-bss") {
+				o.Exclude("C13-merged-mapping-bss")
+				continue
+			}
+			e.Addf("address %#x of a legacy profile: mapping [%#x,%#x) offset %#x (memory map lists %+v), ObjAddr = %#x, the link-time address is %#x (load bias %#x, segments %+v)", l.Address, m.Start, m.Limit, m.Offset, maps, got, l.Address-ec.Bias, ec.Bias, ec.Segs)
+		}
+	}
+	return e
+}
+
+func TestPropLegacyMap(t *testing.T) {
+	vk.Main(t, vk.Spec[legacyCase]{ID: "C13", Facet: "legacymap", Quick: 1500, Thorough: 10000, Gen: genLegacy, Check: checkLegacy,
+		Rule: "the objaddr generator's ELF files, loaded by a loader model (one whole-page mapping per segment, so segments sharing a file page give adjacent mappings with overlapping offsets), described by the memory map of a legacy heap profile whose samples lie in an executable segment (optionally with a stray frame just below the mapping); the mappings pprof derives from that map are given to binutils; oracle: ObjAddr is an error or exactly the runtime address minus the load bias; non-trivial = at least two mappings and a non-zero bias"})
+}
+
+// mergedBssHit: signature of the recorded finding C13-merged-mapping-bss. The mapping covers the file pages
+// of more than one executable segment (adjacent mappings with contiguous offsets are one mapping, for the
+// kernel as for pprof) and the address's file offset also lies inside the memory image [off, off+memsz) of
+// another segment that has uninitialised data: binutils discards the owning segment (its aligned offset is
+// above the mapping offset) and takes the other one without noticing the ambiguity.
+func mergedBssHit(c *elfCase, a, start, limit, offset uint64) bool {
+	fo := a - start + offset
+	spanned := 0
+	for _, s := range c.Segs {
+		if s.Flags&1 != 0 && s.Filesz > 0 && pagedown(s.Off) >= offset && pagedown(s.Off) < offset+(limit-start) {
+			spanned++
+		}
+	}
+	if spanned < 2 {
+		return false
+	}
+	for _, s := range c.Segs {
+		if s.Memsz > s.Filesz && s.Filesz > 0 && fo >= s.Off && fo < s.Off+s.Memsz && !(c.Bias+s.Vaddr <= a && a < c.Bias+s.Vaddr+s.Filesz) {
+			return true
+		}
+	}
+	return false
 }
